@@ -514,6 +514,9 @@ def oracle(ctx):
             except Exception as ex:  # noqa
                 ctx.fail(f'oracle:{cn}:raises-{type(ex).__name__}', f"evaluating the laws for {cn} raises {type(ex).__name__}: {ex}",
                          {'class': cn, 'iteration': it, 'seed': ctx.seed})
+    if not ctx.stats.get('oracle:SE3:route-dual-quaternion:agrees-with-nonzero-translation'):
+        ctx.fail('oracle:SE3:route-dual-quaternion:never-exercised', "the dual-quaternion route never agreed with X * p on an input with a non-zero translation",
+                 no_input=True)
     if last is not None:
         ctx.sample({'kind': 'oracle', 'law': 'SE3:compose', 'X': last[0].tolist(), 'P': last[1].tolist()})
 
@@ -645,12 +648,13 @@ def udq_route(ctx, Xm, p, want, tX, band, rep):
         if tX > 1e-6 * sc:
             ctx.count('oracle:SE3:route-dual-quaternion:agrees-with-nonzero-translation')
         return
-    rot_tol = 1e-6 if band else REL
-    if e_rot <= rot_tol and tX > REL * sc:
+    if band and e_full <= 1e-6:
+        # UnitDualQuaternion(SE3) takes its real part from UnitQuaternion(T.R), i.e. through base.r2q
+        ctx.fail(f'oracle:quaternion-routes:r2q-{band}', f"UnitDualQuaternion route differs from X * p by {e_full:.3g} (relative) for a rotation {band}", rep)
+    elif e_rot <= (1e-6 if band else REL) and tX > REL * sc:
+        # the defect repaired by fix 0a28e8d (wrong conjugate): must stay a VIOLATION if it ever comes back
         ctx.fail('oracle:SE3:route-dual-quaternion:translation-lost', f"UnitDualQuaternion(X) * p = {got.tolist()} equals R p; X * p = R p + t = {want.tolist()}: "
                  "the translation is lost", rep)
-    elif band and e_full <= 1e-6:
-        ctx.fail(f'oracle:quaternion-routes:r2q-{band}', f"UnitDualQuaternion route differs from X * p by {e_full:.3g} (relative) for a rotation {band}", rep)
     else:
         ctx.fail('oracle:SE3:route-dual-quaternion:value', f"UnitDualQuaternion(X) * p = {got.tolist()} but X * p = {want.tolist()} "
                  f"(relative error {e_full:.3g}; against R p: {e_rot:.3g})", rep)
